@@ -2,6 +2,7 @@ package props
 
 import (
 	"go/token"
+	"go/types"
 	"strings"
 
 	"golang.org/x/tools/go/ssa"
@@ -441,6 +442,27 @@ func queryOrigins(g *ssa.Function, v ssa.Value) map[ssa.Value]bool {
 				switch a := x.X.(type) {
 				case *ssa.Alloc:
 					walk(g, a, depth+1)
+				case *ssa.FieldAddr:
+					// a field of a local record that only this function and its closures fill: whatever was stored there
+					rec, isLocal := chanCell(a.X).(*ssa.Alloc)
+					if !isLocal || !recordIsPrivate(rec) {
+						out[x] = true
+						break
+					}
+					found := false
+					for _, h := range an.WithAnon(outermost(rec.Parent())) {
+						an.AllInstrs(h, func(in ssa.Instruction) {
+							if st, ok := in.(*ssa.Store); ok {
+								if fa, ok := st.Addr.(*ssa.FieldAddr); ok && fa.Field == a.Field && chanCell(fa.X) == ssa.Value(rec) {
+									found = true
+									walk(h, st.Val, depth+1)
+								}
+							}
+						})
+					}
+					if !found {
+						out[x] = true
+					}
 				case *ssa.FreeVar:
 					if cell := chanCell(a); cell != ssa.Value(a) {
 						walk(g, cell, depth+1)
@@ -459,4 +481,35 @@ func queryOrigins(g *ssa.Function, v ssa.Value) map[ssa.Value]bool {
 	}
 	walk(g, v, 0)
 	return out
+}
+
+// recordIsPrivate: a local struct value whose address goes nowhere but into field accesses and closure cells, so
+// that the stores to its fields seen in the function and its closures are all the stores there are.
+func recordIsPrivate(rec *ssa.Alloc) bool {
+	if _, isStruct := rec.Type().Underlying().(*types.Pointer).Elem().Underlying().(*types.Struct); !isStruct {
+		return false
+	}
+	ok := true
+	var visit func(v ssa.Value, depth int)
+	visit = func(v ssa.Value, depth int) {
+		if depth > 6 || v.Referrers() == nil {
+			return
+		}
+		for _, ref := range *v.Referrers() {
+			switch r := ref.(type) {
+			case *ssa.FieldAddr, *ssa.DebugRef:
+			case *ssa.MakeClosure:
+				fn := r.Fn.(*ssa.Function)
+				for i, b := range r.Bindings {
+					if b == v && i < len(fn.FreeVars) {
+						visit(fn.FreeVars[i], depth+1)
+					}
+				}
+			default:
+				ok = false
+			}
+		}
+	}
+	visit(rec, 0)
+	return ok
 }
